@@ -307,7 +307,9 @@ def render_initial(rng, world, prop, knobs):
                         v = rng.choice(["foo", "a,b", "."])
                     else:
                         v = rng.choice(["PASS", "lowq", "."])
-                    if rng.random() < 0.1:
+                    if rng.random() < 0.1 and k != "PL":
+                        # (a missing PL makes `phase --distrust-genotypes` raise in GenotypeLikelihoods.as_phred: a
+                        # robustness problem of whatshap, but not one that any clause of C09 or C13 speaks about)
                         v = "."
                     r["calls"][s].append(v)
 
@@ -579,6 +581,8 @@ def gen_store_case(rng, prop, tier):
                 break
         if name == "phase" or name == "twin":
             op = {"op": name, "lib": rng.choice(["L0", "L0", "L1"]), "noref": rng.random() < 0.15}
+            if rng.random() < 0.15:
+                op["distrust"] = True
             if name == "phase":
                 op["tag"] = rng.choice(["PS", "HP"])
                 if rng.random() < 0.15:
@@ -658,7 +662,7 @@ class StoreRun:
         self.initial_unphased_path = None
 
     # -- whatshap invocations
-    def _phase(self, inputs, variant_file, out, tag, samples=None, chroms=None, noref=False, only_snvs=False):
+    def _phase(self, inputs, variant_file, out, tag, samples=None, chroms=None, noref=False, only_snvs=False, distrust=False):
         from whatshap.cli.phase import run_whatshap
 
         with WriterCapture() as cap:
@@ -666,6 +670,7 @@ class StoreRun:
                 phase_input_files=inputs, variant_file=variant_file, output=out,
                 reference=False if noref else os.path.join(self.dir, "ref.fa"),
                 samples=samples, chromosomes=chroms, tag=tag, write_command_line_header=False, only_snvs=only_snvs,
+                distrust_genotypes=distrust, include_homozygous=distrust,
             )
         written = {}
         for entry in cap.calls:
@@ -709,8 +714,12 @@ class StoreRun:
             self.add("C09", "output-unreadable", "%s: output cannot be parsed: %s" % (what, e), "output-unreadable")
             return None
         in_samples, _, in_recs = raw_records(self.last_input)
-        can = writable_calls(in_samples, in_recs, only_snvs)
-        expected = {k: v for k, v in written.items() if k in can}
+        # a statement is expected where the run handed heterozygous alleles to the writer for *the* record of that
+        # position (under --distrust-genotypes the written genotype, not the input GT, decides heterozygosity)
+        elig = eligible_records(in_recs, only_snvs)
+        elig_pos = {(in_recs[j]["chrom"], in_recs[j]["pos"]) for j in elig}
+        has_gt = {(in_recs[j]["chrom"], s, in_recs[j]["pos"]) for j in elig for s in in_samples if in_recs[j]["calls"][s]["gt"] is not None}
+        expected = {k: v for k, v in written.items() if (k[0], k[2]) in elig_pos and k in has_gt and len(set(v[1])) > 1}
         self.stats.inc("written_statements", len(expected))
         targets = {(c, s) for c in target_chroms for s in target_samples}
         # R2: statements present in the raw output for target samples
@@ -820,13 +829,16 @@ class StoreRun:
         had_phase = any((c, s) in self.tag_of for c in tchroms for s in tsamples)
         ok, res = self.guarded(what, lambda: self._phase([self.libs[lib]], self.current, out, tag,
                                                          samples=op.get("samples") and tsamples, chroms=op.get("chroms") and tchroms,
-                                                         noref=op.get("noref", False), only_snvs=op.get("only_snvs", False)), "C09", "phase-crashed")
+                                                         noref=op.get("noref", False), only_snvs=op.get("only_snvs", False),
+                                                         distrust=op.get("distrust", False)), "C09", "phase-crashed")
         if not ok:
             return False
         written, touched = res
         self.stats.inc("op_phase")
         if op.get("only_snvs"):
             self.stats.inc("phase_only_snvs")
+        if op.get("distrust"):
+            self.stats.inc("phase_distrust_genotypes")
         if had_phase:
             prevtags = {self.tag_of.get((c, s)) for c in tchroms for s in tsamples} - {None}
             self.stats.inc("rephase_same_tag" if prevtags == {tag} else "rephase_other_tag")
@@ -873,7 +885,7 @@ class StoreRun:
             what = "op %d twin(lib=%s) --tag=%s" % (i, lib, tag)
             ok, res = self.guarded(what, lambda: self._phase([self.libs[lib]], self.current, out, tag,
                                                              samples=op.get("samples") and tsamples, chroms=op.get("chroms") and tchroms,
-                                                             noref=op.get("noref", False)), "C09", "phase-crashed")
+                                                             noref=op.get("noref", False), distrust=op.get("distrust", False)), "C09", "phase-crashed")
             if not ok:
                 return False
             written, touched = res
@@ -882,6 +894,8 @@ class StoreRun:
                 return False
             decs[tag] = dec
         self.stats.inc("op_twin")
+        if op.get("distrust"):
+            self.stats.inc("twin_distrust_genotypes")
         if decs["PS"] != decs["HP"]:
             keys = sorted(set(decs["PS"]) | set(decs["HP"]))
             diff = [k for k in keys if decs["PS"].get(k) != decs["HP"].get(k)]
@@ -1169,7 +1183,7 @@ class HistEngine(Engine):
             size //= 2
         # simplify op arguments
         for j, o in enumerate(ops):
-            for key in ("samples", "chroms", "noref", "only_snvs", "outfmt"):
+            for key in ("samples", "chroms", "noref", "only_snvs", "outfmt", "distrust"):
                 if o.get(key):
                     cand = dict(case)
                     o2 = dict(o)
